@@ -16,6 +16,7 @@ from os import makedirs
 import os.path
 import hashlib
 import json
+from copy import deepcopy
 from liquer.state_types import state_types_registry
 from liquer.state import State
 from liquer.parser import all_splits, encode, decode
@@ -423,7 +424,7 @@ class MemoryCache(CacheMixin):
         if state is None:
             return None
         else:
-            return dict(**state.metadata)
+            return deepcopy(state.metadata)
 
     def store(self, state):
         if state.is_error:
@@ -440,7 +441,8 @@ class MemoryCache(CacheMixin):
             state = State()
             state.metadata_only = True
             self.storage[key] = state
-        state.metadata = metadata
+        # the cache keeps its own copy: the caller goes on using (and changing) its dictionary
+        state.metadata = deepcopy(metadata)
 
         return True
 
